@@ -24,8 +24,13 @@ BUDGET = {"quick": (16, 220), "thorough": (16, 6000)}
 
 @st.composite
 def _strategy(draw):
-    flavour = draw(st.sampled_from(["plain", "plain", "links", "links", "multires", "mods", "mods"]))
-    if flavour == "plain":
+    flavour = draw(st.sampled_from(["plain", "plain", "links", "links", "multires", "mods", "mods", "mixed_nrexcl"]))
+    if flavour == "mixed_nrexcl":
+        # blocks of different exclusion distance in one molecule: every block is still copied line by line, its
+        # own [ exclusions ] included
+        spec = draw(gp.case(with_links=True, link_bias=True, mixed_nrexcl=True, min_blocks=2, min_res=2,
+                            name_modes=("block", "random", "random")))
+    elif flavour == "plain":
         spec = draw(gp.case(with_links=False, allow_dangling=False, resname_mismatch=True))
     elif flavour == "links":
         spec = draw(gp.case(with_links=True, link_bias=True))
